@@ -80,7 +80,7 @@ def make_polars_frame(tspec) -> pl.DataFrame:
 class Built:
     """The materialisation of a world on one backend."""
 
-    __slots__ = ("backend", "tables", "engine", "frames", "sqa_tables")
+    __slots__ = ("backend", "tables", "engine", "frames", "sqa_tables", "n_mat")
 
     def __init__(self, backend):
         self.backend = backend
@@ -88,6 +88,7 @@ class Built:
         self.engine = None
         self.frames = {}
         self.sqa_tables = {}
+        self.n_mat = 0
 
     def close(self):
         if self.engine is not None:
